@@ -42,6 +42,9 @@ type h1Run struct {
 	TrigDesc   string
 	TrigOpts   api.Options
 	HaveTrig   bool
+	DryProbed  int   // C14: the accepted trigger's rate function probed after the run
+	DryMin     int   // smallest value it returned
+	DryMinAtNs int64 // … at this offset from the end of the run
 	Gathered   []metricSeries
 	GatherErr  string
 }
@@ -163,6 +166,7 @@ func h1OneRun(env *Env, c *H1Cfg, st *h1State, runIdx int) {
 		fmt.Sprintf("--verbose=%v", c.Verbose),
 	}
 
+	var probe api.RateFunction
 	g.DoCalledNs, g.DoCalledSeq = env.Sim.Now(), env.Sim.Step()
 	env.Log("do-call", int64(runIdx), 0, c.Mode)
 	if c.Driver == "f1" {
@@ -271,6 +275,7 @@ func h1OneRun(env *Env, c *H1Cfg, st *h1State, runIdx int) {
 					g.DoErr = err.Error()
 				}
 				hr.Result = res
+				probe = trig.DryRun
 			}()
 		}
 	}
@@ -279,6 +284,32 @@ func h1OneRun(env *Env, c *H1Cfg, st *h1State, runIdx int) {
 	env.Log("do-return", int64(runIdx), 0, "")
 	if len(c.ReadEnv) > 0 {
 		g.EnvAfter = envStillSet(c.ReadEnv)
+	}
+	if c.Input != nil && probe != nil && g.DoPanic == "" && c.Mode != "file" && c.Mode != "users" {
+		// C14: a usable rate function never asks for a negative amount of work, whenever it is asked
+		func() {
+			defer func() {
+				if r := recover(); r != nil {
+					g.DoPanic = "rate function: " + fmt.Sprint(r) + "\n" + string(debug.Stack())
+				}
+			}()
+			base := time.Now()
+			// (non-decreasing instants: stateful rate functions are defined for those)
+			short := 2 * time.Duration(max(c.MaxDurationNs, int64(time.Second)))
+			for _, span := range []time.Duration{short, 24 * time.Hour} {
+				for i := 0; i <= 48; i++ {
+					off := time.Duration(i) * span / 48
+					if span != short && off <= short {
+						continue
+					}
+					v := probe(base.Add(off))
+					if hr.DryProbed == 0 || v < hr.DryMin {
+						hr.DryMin, hr.DryMinAtNs = v, int64(off)
+					}
+					hr.DryProbed++
+				}
+			}
+		}()
 	}
 	if hr.Result != nil && g.DoPanic == "" {
 		func() {
